@@ -2,6 +2,7 @@ import WfModel.Runner
 import WfProofs.EngineReduce
 import WfProofs.ReplayRebuild
 import WfProofs.RunnerWorkers
+import WfModel.GenTickLog
 /-!
 # C11 — replaying the recorded tick log reproduces the live run state
 
@@ -288,8 +289,7 @@ theorem C11_rewind_serialise_commute_with_erasure (cfg : Cfg) (s : State) (n n' 
 /-! ### `running_steps()` and `ctx.to_dict()` are functions of the rebuilt state -/
 
 /-- `ExternalContext.running_steps()`: `[s for s in state.workers if state.workers[s].in_progress]` -/
-def C11.runningSteps (cfg : Cfg) (st : State) : List Nat :=
-  cfg.names.filter (fun s => !(st.workers s).inProg.isEmpty)
+def C11.runningSteps (cfg : Cfg) (st : State) : List Nat := activeSteps cfg st
 
 /-- **`running_steps()` describes the run**: computed from the rebuilt state (any clock) it is the
 list of steps whose live `in_progress` table is non-empty, in registration order; in particular it
@@ -308,7 +308,7 @@ theorem C11_running_steps_describe_run (cfg : Cfg) (hwf : cfg.WF) (pol : Policy)
   have hmem : ∀ s, s ∈ C11.runningSteps cfg (C11.runFrom cfg pol st0 now start timeout acts).st ↔
       s ∈ cfg.names ∧ ((C11.runFrom cfg pol st0 now start timeout acts).st.workers s).inProg ≠ [] := by
     intro s
-    simp [C11.runningSteps, List.mem_filter]
+    simp [C11.runningSteps, activeSteps, List.mem_filter]
   refine ⟨rep.st, by simp [C11.rebuild, h1], heq, fun s => by rw [heq]; exact hmem s, fun w hw => ?_⟩
   have hinv := run_runInv cfg hwf pol False acts _ (guarded_false cfg pol acts _)
     (init_runInv cfg hwf False st0 h0 now start timeout)
@@ -630,3 +630,65 @@ theorem C11_log_is_reduced_ticks (cfg : Cfg) (pol : Policy) :
 example :
     (C11.drained C11.exCfg (fun _ _ _ _ => .stop) (Runner.init C11.exCfg initState 0 (some C11.startEv) none)
       [.drain, .advance 3, .workerDone 0 0 [.result none], .drain, .drain]).map (·.2) = [0, 3, 3] := by decide
+
+/-! ### the recording discipline, tied to the source -/
+
+/-- **one `drain` = one `_process_tick`**: the head of the buffer is reduced on the current state at
+the current clock; if the reducer raises, nothing is recorded, the state is left as it was and the
+run is over; otherwise the new state is the reduction, exactly `(tick, now)` is appended to the log
+— before any command runs: commands touch neither — and the rest of the buffer stays in front. -/
+theorem C11_drain_records_what_it_reduces (cfg : Cfg) (pol : Policy) (r : Runner) (t : Tick) (rest : List Tick)
+    (hrun : r.outcome = none) (hb : r.buf = t :: rest) :
+    ((reduce cfg pol t r.st r.now).2.contains .crash = true →
+      (r.step cfg pol .drain).st = r.st ∧ (r.step cfg pol .drain).log = r.log ∧
+        (r.step cfg pol .drain).outcome = some .crashed) ∧
+    ((reduce cfg pol t r.st r.now).2.contains .crash = false →
+      (r.step cfg pol .drain).st = (reduce cfg pol t r.st r.now).1 ∧
+        (r.step cfg pol .drain).log = r.log ++ [(t, r.now)]) := by
+  unfold Runner.step
+  simp only [hrun, Option.isSome_none, Bool.false_eq_true, if_false, hb]
+  constructor
+  · intro hc
+    simp only [hc, if_true, Runner.finish, and_self]
+  · intro hc
+    simp only [hc, Bool.false_eq_true, if_false]
+    exact ⟨(C11.execCmds_st_log _ _).1, (C11.execCmds_st_log _ _).2⟩
+
+example :
+    let r := Runner.init C11.exCfg initState 0 (some C11.startEv) none
+    r.outcome = none ∧ r.buf = [.addEvent { ev := C11.startEv } none] ∧
+      (reduce C11.exCfg C11.pol0 (.addEvent { ev := C11.startEv } none) r.st r.now).2.contains .crash = false := by decide
+
+/-- **source shape** (regenerated from `/repo` by `harness/gen/ticklog.py` on every run; a change
+of any of these shapes stops this theorem from checking).
+`_process_tick` = reduce-in-a-re-raising-try; `on_tick`; clean-up on exit commands; commands;
+`after_tick` — the order `Runner.step … .drain` models (`C11_drain_records_what_it_reduces`).
+`on_tick` is awaited once in the module, with the tick that was reduced on `self.state`;
+`self.state` is written in three places only (`__init__`: the `init_state` argument, `run`: the
+rewind, before the loop, `_process_tick`: the reduction) — `Runner.init`, `Runner.step`;
+`_process_tick` has one call site and gets `tick_buffer.pop(0)`.
+`rebuild_state_from_ticks` = `replayTicks`: rewind the given state first, one `_reduce_tick` per
+given tick in order, no early exit, commands dropped, clock `time.time()` for both, state returned.
+`plugins/basic.py`: `on_tick` appends to `queues.ticks`, which is otherwise only initialised to
+`[]`; `replay()` returns that list and `init_state` the state handed to the run function.
+`external_context.py`: `_state` = rebuild of (`init_state`, `replay()`); `running_steps()` and
+`to_dict()` are computed from `_state` (`C11.runningSteps`, `C11.toDict`). -/
+theorem C11_source_shape :
+    GenTickLog.processTick =
+      ["try[now,state:=_reduce_tick]reraise", "on_tick", "cleanup_if[CommandFailWorkflow,CommandHalt]", "for_commands",
+        "after_tick", "return"] ∧
+    GenTickLog.onTickArgIsReducedTick = true ∧ GenTickLog.onTickCallSites = 1 ∧ GenTickLog.processTickCallSites = 1 ∧
+    GenTickLog.stateWriters =
+      [("__init__", "init_state"), ("run", "rewind_in_progress"), ("_process_tick", "_reduce_tick")] ∧
+    GenTickLog.tickFromBufferFront = true ∧ GenTickLog.rewindBeforeLoop = true ∧
+    GenTickLog.rebuildRewindsFirst = true ∧ GenTickLog.rebuildReducesPerTick = 1 ∧
+    GenTickLog.rebuildLoopHasEarlyExit = false ∧ GenTickLog.rebuildIteratesGivenTicks = true ∧
+    GenTickLog.rebuildDropsCommands = true ∧ GenTickLog.rebuildClockIsWallClock = true ∧
+    GenTickLog.rebuildReturnsState = true ∧
+    GenTickLog.onTickAppends = true ∧ GenTickLog.ticksWrites = ["__init__:assign[]", "on_tick:append"] ∧
+    GenTickLog.replayReturnsTicks = true ∧ GenTickLog.initStateReturnsQueues = true ∧
+    GenTickLog.initStateWrites = ["__init__:=init_state"] ∧ GenTickLog.sameInitStateToQueuesAndRun = true ∧
+    GenTickLog.stateIsRebuildOfInitAndLog = true ∧ GenTickLog.tickLogIsAdapterReplay = true ∧
+    GenTickLog.runningStepsShape = "[step for step in state.workers.keys() if state.workers[step].in_progress]" ∧
+    GenTickLog.toDictSerialisesState = true := by
+  decide
